@@ -30,6 +30,12 @@ func c17UpstreamCerts(c *Ctx) {
 	ca2, _ := pki.NewCA("verif-ca2")
 	ca1Path := filepath.Join(dir, "ca1.pem")
 	ca1.WriteFile(ca1Path)
+	// the proxy's system trust store consists of ca2 alone (SSL_CERT_FILE / SSL_CERT_DIR): "system
+	// roots" can then be told apart from "the configured ca" in both directions
+	ca2Path := filepath.Join(dir, "system-roots.pem")
+	ca2.WriteFile(ca2Path)
+	emptyDir := filepath.Join(dir, "no-certs")
+	os.MkdirAll(emptyDir, 0755)
 	kinds := []struct{ scheme, transport string }{{"tls", "tls"}, {"tls+pipeline", "tls"}, {"https", "https"}, {"h3", "h3"}, {"quic", "quic"}}
 	certs := []string{"valid", "wrong-name", "unknown-ca", "expired", "self-signed"}
 	options := []string{"ca", "system-roots", "skip-verify"}
@@ -95,7 +101,7 @@ func c17UpstreamCerts(c *Ctx) {
 				tag := fmt.Sprintf("c%d", n)
 				n++
 				cl := &cell{tag: tag, scheme: k.scheme, cert: ct, option: op, srv: s, port: port}
-				cl.want = op == "skip-verify" || (op == "ca" && ct == "valid")
+				cl.want = op == "skip-verify" || (op == "ca" && ct == "valid") || (op == "system-roots" && ct == "unknown-ca")
 				cells = append(cells, cl)
 				path := ""
 				if k.transport == "https" || k.transport == "h3" {
@@ -125,7 +131,7 @@ func c17UpstreamCerts(c *Ctx) {
 		}
 		listen = fmt.Sprintf("127.0.0.1:%d", ports[0])
 		cfgText := y.String() + sets.String() + rules.String() + fmt.Sprintf("servers:\n  - protocol: tcp\n    listen: \"%s\"\n", listen)
-		p, err = proxyproc.Start(proxyproc.Opts{Bin: proxyBin(), Dir: filepath.Join(dir, fmt.Sprintf("proxy%d", attempt)), YAML: cfgText})
+		p, err = proxyproc.Start(proxyproc.Opts{Bin: proxyBin(), Dir: filepath.Join(dir, fmt.Sprintf("proxy%d", attempt)), YAML: cfgText, Env: map[string]string{"SSL_CERT_FILE": ca2Path, "SSL_CERT_DIR": emptyDir}})
 		if err == nil {
 			break
 		}
